@@ -264,7 +264,17 @@ def r2_delegation(rep, ctx):
     init = m.method("AbstractValueWithQuantityObject", "__init__")
     ires = Resolver(m, init)
     calls = [c for c in own_nodes(init.node) if isinstance(c, ast.Call) and isinstance(c.func, ast.Attribute) and c.func.attr == "_GetDefaultValue" and len(c.args) == 2]
-    ok = len(calls) == 1 and ast.unparse(calls[0].args[1]) == "unit" and "GetCategoryInfo(category)" in ast.unparse(calls[0].args[0]) or (len(calls) == 1 and ast.unparse(calls[0].args[0]) == "category_info" and ast.unparse(calls[0].args[1]) == "unit")
+    ok = len(calls) == 1
+    if ok:
+        # by terms: (GetCategoryInfo(<category as given>), <unit as given>); in the (value, unit, category)
+        # argument order the roles are shifted by one parameter
+        P = {p_: ("param", i_, p_) for i_, p_ in enumerate(init.params)}
+        info_t, unit_t = ires.term(calls[0].args[0]), ires.term(calls[0].args[1])
+        unit_alts = alternatives(unit_t)
+        ok = P["unit"] in unit_alts and all(a_ in (P["unit"], P["value"]) for a_ in unit_alts)
+        for a_ in alternatives(info_t):
+            ok = ok and a_[0] == "call" and a_[1][0] == "attr" and a_[1][2] == "GetCategoryInfo" and len(a_[2]) == 1 \
+                and P["category"] in alternatives(a_[2][0]) and all(c_ in (P["category"], P["unit"]) for c_ in alternatives(a_[2][0]))
     n += 1
     rep.check(ok, "C02.R2", "constructor:default-in-requested-unit", "the category-only form asks for the default value in the unit it was given", "the shared constructor does not pass (category info, requested unit) to _GetDefaultValue", fn=init)
     # CreateCopy: value in the unit the new quantity gets
